@@ -2,6 +2,7 @@ package swapsim
 
 import (
 	"fmt"
+	"sort"
 	"strings"
 	"testing"
 
@@ -114,7 +115,7 @@ func monitorC07(col *stats.Collector) func(h *Hist) {
 func TestC07MakerFundsNeverAbandoned(t *testing.T) {
 	col := stats.Get("C07.hist")
 	rapid.Check(t, func(t *rapid.T) {
-		h := newHist(t, HistCfg{MaxSteps: 28, Chains: []string{"btc", "lbtc"}, Restarts: true, Crashes: true, Faults: true, PayOutcomes: true, Timeouts: true, Drops: true, Adversary: true,
+		h := newHist(t, HistCfg{MaxSteps: 28, Chains: []string{"btc", "lbtc"}, Restarts: true, Crashes: true, Faults: true, PayOutcomes: true, Timeouts: true, Drops: true, Adversary: true, Eager: true,
 			Weights: map[string]int{"start": 0, "progress": 12, "deliver": 2, "settle": 1, "restart": 2, "mine": 2, "watcher": 1, "paid": 1, "timeout": 1, "payplan": 2, "resolve": 1, "fault": 4, "armcrash": 3, "peer": 3}})
 		defer h.Close()
 		h.A.ChangeBefore = rapid.IntRange(0, 2).Draw(t, "changeBeforeA")
@@ -185,6 +186,9 @@ func TestC07MakerFundsNeverAbandoned(t *testing.T) {
 // opening output the node broadcast must be spent by the node unless the claim invoice was paid.
 func finalC07(h *Hist, col *stats.Collector) {
 	if !h.stop {
+		finalC07NoRestart(h, col)
+	}
+	if !h.stop {
 		closureSilentPeer(h, 4)
 		h.afterStep()
 	}
@@ -204,5 +208,106 @@ func finalC07(h *Hist, col *stats.Collector) {
 				break
 			}
 		}
+	}
+}
+
+// finalC07NoRestart is the part of the property that needs no restart: a live maker whose opening output
+// has not matured yet, whose services are healthy from now on and whose peer stays silent broadcasts the
+// refund when the csv matures -- the running process does it, not the next one. (A restart re-registers
+// every watch and so repairs a lost or wrongly parameterised csv registration.)
+func finalC07NoRestart(h *Hist, col *stats.Collector) {
+	h.W.CrashAt = -1
+	for _, m := range h.W.PendingMsgs() {
+		h.W.Drop(m)
+	}
+	type due struct {
+		n *sim.Node
+		o *sim.Opening
+	}
+	var demand []due
+	for _, n := range h.nodes() {
+		if !h.alive(n) {
+			continue
+		}
+		n.Faults = map[string][]sim.FaultKind{}
+		n.PayPlan = map[string][]sim.PayOutcome{"claim": {sim.PayFailClean, sim.PayFailClean, sim.PayFailClean}, "fee": {sim.PayFailClean}}
+		n.MineOnHeightCall = map[string][]uint32{}
+		storeFault := false
+		for _, f := range n.FaultsFired {
+			if strings.HasPrefix(f, "store.UpdateData:") {
+				storeFault = true
+			}
+		}
+		for _, o := range n.Openings {
+			rec := recForOpening(n, o)
+			c := h.W.Chains[o.Chain]
+			if rec == nil || isTerminal(rec.Current) || invoicePaid(h, rec) || c.Spender(o.TxID, o.Vout) != "" {
+				continue
+			}
+			if o.Epoch != n.Proc.Epoch && rec.Data.OpeningTxBroadcasted == nil {
+				continue // broadcast by an earlier process that died before recording it (judged by the monitor)
+			}
+			if c.Confs(o.TxID) >= o.Params.CSV {
+				continue // matured during the history: the bounded retries may be used up already
+			}
+			if storeFault {
+				h.class("no-restart-closure:skipped-after-store-fault")
+				continue // known finding C07-store-write-failure-strands-swap
+			}
+			demand = append(demand, due{n, o})
+		}
+	}
+	if len(demand) == 0 {
+		return
+	}
+	var pend []string
+	for hash, p := range h.W.LN.Payments {
+		if p.State == sim.PayPending {
+			pend = append(pend, hash)
+		}
+	}
+	sort.Strings(pend)
+	for _, hash := range pend {
+		h.W.LN.ResolvePending(hash, false)
+	}
+	for _, step := range []uint32{1, 2, 57, 1, 443, 504, 1, 10080} {
+		for _, c := range h.Cfg.Chains {
+			if step > 1100 && c == "btc" {
+				continue
+			}
+			h.W.Mine(c, step)
+		}
+		for k := 0; k < 4; k++ {
+			for _, n := range h.nodes() {
+				if !h.alive(n) {
+					continue
+				}
+				for _, nt := range n.TakePaymentNotifs() {
+					n.DeliverPayment(nt)
+				}
+				for _, ev := range n.DueWatcherEvents() {
+					n.DeliverWatcherEvent(ev)
+				}
+			}
+		}
+		for _, m := range h.W.PendingMsgs() {
+			h.W.Drop(m)
+		}
+	}
+	h.opf("closure-without-restart(%d openings)", len(demand))
+	for _, d := range demand {
+		h.class("no-restart-closure:demanded")
+		rec := recForOpening(d.n, d.o)
+		if !h.alive(d.n) || invoicePaid(h, rec) || outpointSpentByNode(h, d.n, d.o) {
+			continue
+		}
+		st := "?"
+		if rec != nil {
+			st = string(rec.Current)
+		}
+		h.stop = col.Violation(h.T, "C07/"+causeOf(h, d.n, d.o)+"/not-refunded-without-restart:"+strings.TrimPrefix(st, "State_"),
+			"the csv matured (invoice unpaid, peer silent, services healthy since the closure began, no restart) but the running %s never spent opening output %s:%d; swap state %s\n%s\n-- log --\n%s",
+			d.n.Name, d.o.TxID[:8], d.o.Vout, st, h.dump(), tail(sim.LogDump(), 25))
+		return
 	}
 }
